@@ -458,6 +458,8 @@ class Mahony:
         self.mag = np.copy(self.mag)
         if self.mag.shape != self.gyr.shape:
             raise ValueError("mag and gyr are not the same size")
+        if self.q0 is None and not (np.linalg.norm(self.acc[0]) > 0 and np.linalg.norm(self.mag[0]) > 0):
+            raise ValueError("The first accelerometer and magnetometer samples must be non-zero to compute the initial attitude. Give q0 otherwise.")
         Q[0] = am2q(self.acc[0], self.mag[0]) if self.q0 is None else self.q0/np.linalg.norm(self.q0)
         for t in range(1, num_samples):
             Q[t] = self.updateMARG(Q[t-1], self.gyr[t], self.acc[t], self.mag[t])
